@@ -82,7 +82,7 @@ func VerifC16_Column() {
 	kws := []string{"type", "extend type", "define", "condition"}
 	kw := kws[zzverif.Choose("keyword", len(kws))]
 	sep := verifSepList()[zzverif.Choose("separator", len(verifSepList()))]
-	line := indent + kw + sep + nm + []string{"", ": a", "(x: int) {", " # t"}[zzverif.Choose("tail", 4)]
+	line := indent + kw + sep + nm + []string{"", ": a", "(x: int) {", " # t", "  ", "\t", "\r", ": a \r", ": [user, group#" + nm + "]  "}[zzverif.Choose("tail", 9)]
 	nameAt := len(indent) + len(kw) + len(sep)
 	other := "type " + zzverif.Str("other", 1, 2, verifIdent)
 	lines := []string{other, line}
